@@ -18,6 +18,7 @@ RULE = ("exhaustive part: per degree 1..3 every assignment of two distinct value
         "not in {0,1}, or a grid case (counted once per (degree, assignment)); distinct by case hash.")
 ASSUMPTIONS = ["the methods under test are straight-line polynomial code (read), so the finite grid decides the identity",
                "float comparison uses the bound 64*eps*8*sum|P_i|*max(1,|t|)^deg (DESIGN 1.7)"]
+RULE += ' Also: segments that are reversed copies of queried ones or had control points reassigned, copies 1e3..1e9 sizes away from the origin, and integer-coefficient polynomials in four containers.'   # added after the seeded-change rounds (DESIGN.md section 10)
 CONFIGS = ['scipy']
 BUDGET = {'quick': 24000, 'thorough': 500000}
 EXHAUSTIVE_NOTE = "all 2^(2(deg+1)) two-valued component assignments for deg 1,2,3 (16+64+256 cases) x 5 t values x all methods"
